@@ -1,4 +1,6 @@
+mod bristol_ref;
 mod c06;
+mod c11;
 mod driver;
 mod gen;
 mod prng;
@@ -122,9 +124,28 @@ fn c06_def(plan: &c06::Plan) -> driver::PropertyDef {
     }
 }
 
+fn c11_def(plan: &c11::CasePlan) -> driver::PropertyDef {
+    driver::PropertyDef {
+        id: "C11",
+        level: "fault_enumeration",
+        rule: "families: sweep = complete single-fault enumeration per small circuit (every write index x {short, EINTR, ENOSPC, sticky EIO}, every disk-full byte budget, every open errno, every read index x {short, EINTR, EIO}, every truncation offset, every single-bit flip, digit/space/newline substitution at every offset, every header token x replacement token); seeded = PRNG-drawn multi-fault plans on both sides; corrupt = exporter crash points and stored-data corruption between export and import; text = arbitrary/mutated text files to the importer; s5 = two exporters on one path under a PRNG baton schedule. evaluations = exports + imports + circuit evaluations executed. distinct_nontrivial = distinct worlds (hash of circuit source, fault plans, corruptions, schedule) in which at least one injected fault actually fired or at least one stored byte actually changed",
+        assumptions: vec![
+            "the kernel below the seam is healthy; reordering below the page cache / fsync semantics are not modelled (the exporter never syncs and the property promises no durability)".into(),
+            "std::fs::File reaches the OS only through open64/open, write, read, close (start-up liveness test fails closed otherwise)".into(),
+            "function equality is checked on all inputs for circuits with <= 10 input bits and on all-zeros, all-ones and 48 PRNG vectors otherwise".into(),
+            "allocation failure is not injected; workers run under RLIMIT_AS = 8 GiB so an absurd allocation is a deterministic abort attributed to its world".into(),
+        ],
+        components: components(),
+        crash_is_violation: true,
+        n_cases: plan.n_cases(),
+        determinism_sample: 0,
+    }
+}
+
 fn run_case_dispatch(property: &str, tier: &str, seed: u64, idx: u64) -> supervise::CaseResult {
     thread_local! {
         static C06PLAN: std::cell::RefCell<Option<(String, std::rc::Rc<c06::Plan>)>> = const { std::cell::RefCell::new(None) };
+        static C11PLAN: std::cell::RefCell<Option<(String, std::rc::Rc<c11::CasePlan>)>> = const { std::cell::RefCell::new(None) };
     }
     match property {
         "C06" => {
@@ -136,6 +157,16 @@ fn run_case_dispatch(property: &str, tier: &str, seed: u64, idx: u64) -> supervi
                 c.as_ref().unwrap().1.clone()
             });
             c06::run_case(&plan, seed, idx)
+        }
+        "C11" => {
+            let plan = C11PLAN.with(|c| {
+                let mut c = c.borrow_mut();
+                if c.as_ref().map(|(t, _)| t != tier).unwrap_or(true) {
+                    *c = Some((tier.to_string(), std::rc::Rc::new(c11::CasePlan::load(tier).expect("corpus"))));
+                }
+                c.as_ref().unwrap().1.clone()
+            });
+            c11::run_case(&plan, seed, idx)
         }
         _ => panic!("unknown property {property}"),
     }
@@ -157,6 +188,18 @@ fn check(property: &str, tier: &str) -> i32 {
             def.determinism_sample = if tier == "thorough" { 512 } else { 64 };
             driver::run_check(&def, tier, seed)
         }
+        "C11" => {
+            let plan = match c11::CasePlan::load(tier) {
+                Ok(p) => p,
+                Err(e) => {
+                    println!("HARNESS-ERROR: {e}");
+                    return 2;
+                }
+            };
+            let mut def = c11_def(&plan);
+            def.determinism_sample = if tier == "thorough" { 1024 } else { 96 };
+            driver::run_check(&def, tier, seed)
+        }
         _ => {
             println!("HARNESS-ERROR: unknown property {property}");
             2
@@ -164,7 +207,34 @@ fn check(property: &str, tier: &str) -> i32 {
     }
 }
 
+/// `replay <file>`: run the replay in a child process so that an abort / stack overflow / OOM kill
+/// of the code under test is observed (and reported as the violation it is) instead of killing us.
 fn replay(path: &str) -> i32 {
+    let exe = std::env::current_exe().expect("exe");
+    let out = match std::process::Command::new(exe).arg("replay-inner").arg(path).output() {
+        Ok(o) => o,
+        Err(e) => {
+            println!("HARNESS-ERROR: {e}");
+            return 2;
+        }
+    };
+    print!("{}", String::from_utf8_lossy(&out.stdout));
+    match out.status.code() {
+        Some(c @ (0 | 1 | 2)) => c,
+        _ => {
+            let prop = std::fs::read_to_string(path)
+                .ok()
+                .and_then(|t| serde_json::from_str::<serde_json::Value>(&t).ok())
+                .and_then(|v| v["property"].as_str().map(|s| s.to_string()))
+                .unwrap_or_default();
+            println!("VIOLATION property={prop} replay={path}");
+            println!("  class=process_died {} {}", out.status, String::from_utf8_lossy(&out.stderr).lines().last().unwrap_or(""));
+            1
+        }
+    }
+}
+
+fn replay_inner(path: &str) -> i32 {
     install_panic_hook();
     let t = match std::fs::read_to_string(path) {
         Ok(t) => t,
@@ -204,6 +274,24 @@ fn replay(path: &str) -> i32 {
                 2
             }
         },
+        "C11" => match c11::replay(&v) {
+            Ok(fs) if fs.is_empty() => {
+                println!("replay: no violation reproduced");
+                0
+            }
+            Ok(fs) => {
+                for f in fs {
+                    println!("VIOLATION property=C11 replay={path}");
+                    println!("  class={} signature={}", f.class, f.signature);
+                    println!("  {}", f.what);
+                }
+                1
+            }
+            Err(e) => {
+                println!("HARNESS-ERROR: {e}");
+                2
+            }
+        },
         _ => {
             println!("HARNESS-ERROR: unknown property in replay file");
             2
@@ -224,6 +312,10 @@ fn main() {
         Some("corpus-filter") => corpus_filter(),
         Some("check") => std::process::exit(check(&args[2], args.get(3).map(|s| s.as_str()).unwrap_or("quick"))),
         Some("replay") => std::process::exit(replay(&args[2])),
+        Some("replay-inner") => {
+            supervise::limit_address_space(8 << 30);
+            std::process::exit(replay_inner(&args[2]))
+        }
         Some("case") => {
             // garble-sim case <property> <tier> <idx> : run one case in-process, print result
             install_panic_hook();
